@@ -91,6 +91,10 @@ def build_layout(root: str, variant: dict):
         ("l", "sb/vocab/ln_out", "../../out"), ("l", "sb/vocab/ln_secret.oct.md", "../../out/secret.oct.md"),
         ("l", "sb/vocab/ln_in.oct.md", "inner/w.oct.md"), ("l", "sb/vocab/ln_sibling", "../docs"),
     ]
+    from .c16 import hydration_fixture
+
+    hs, hv = hydration_fixture()
+    spec += [("f", "sb/hsrc/source.oct.md", hs, 0o644), ("f", "sb/hsrc/vocabulary.oct.md", hv, 0o644)]
     fsmodel.build_tree(root, spec)
 
 
@@ -164,7 +168,7 @@ def classify_path(path_str: str, cwd: str) -> dict:
 # --------------------------------------------------------------------------- #
 
 PATH_CALLS = [("write_content", 7), ("validate_file", 5), ("atomic", 3), ("write_dry", 1), ("write_changes", 1),
-              ("write_normalize", 1), ("validate_path_fn", 1), ("cli_write", 1), ("cli_normalize", 1), ("cli_seal", 1)]
+              ("write_normalize", 1), ("validate_path_fn", 1), ("cli_write", 1), ("cli_normalize", 1), ("cli_seal", 1), ("cli_hydrate", 1)]
 
 
 def make_path_call(kind: str, p: str, root: str):
@@ -197,6 +201,9 @@ def make_path_call(kind: str, p: str, root: str):
         return lambda: run_cli(["write", p, "--content", NEWDOC])
     if kind in ("cli_normalize", "cli_seal"):
         return lambda: run_cli([kind[4:], os.path.join(root, "sb/top.oct.md"), "-o", p])
+    if kind == "cli_hydrate":
+        return lambda: run_cli(["hydrate", os.path.join(root, "sb/hsrc/source.oct.md"), "--mapping",
+                                "@test/vocabulary=" + os.path.join(root, "sb/hsrc/vocabulary.oct.md"), "-o", p])
     raise ValueError(kind)
 
 
@@ -333,7 +340,7 @@ def run_path_case(case: dict, stats: Stats | None = None) -> dict:
     cwd = sb
     kind = case["call"]
     cl = classify_path(path_str, cwd)
-    if path_str == "" and kind in ("cli_normalize", "cli_seal"):
+    if path_str == "" and kind in ("cli_normalize", "cli_seal", "cli_hydrate"):
         # `-o ""` means "no output file": the command prints to stdout; no path was handed over as a file to write
         cl = {"must_refuse": False, "why": [], "abs": None}
     rec = Recorder(root)
@@ -346,6 +353,8 @@ def run_path_case(case: dict, stats: Stats | None = None) -> dict:
     ref = refused(kind, a)
     eff = effective_ops(sim, resolved)
     allowed_inputs = {os.path.join(root, "sb/top.oct.md")} if kind in ("cli_normalize", "cli_seal") else set()
+    if kind == "cli_hydrate":
+        allowed_inputs = {os.path.join(root, "sb/hsrc/source.oct.md"), os.path.join(root, "sb/hsrc/vocabulary.oct.md")}
     out_root = os.path.join(root, "out")
     home_root = os.path.join(root, "home")
 
